@@ -326,6 +326,8 @@ def check(ck):
     from rules import c01 as _c01b, c17 as _c17b, common as _cm610
     _cm610.import_rules(ck, _c01b, {"C01.4": "C06.10"})
     _cm610.import_rules(ck, _c17b, {"C17.3": "C06.10"})
+    from rules import c14 as _c14b6
+    _cm610.import_rules(ck, _c14b6, {"C14.4": "C06.10"})      # (the reply text - str, or bytes when it is not UTF-8 - reaches the parser as received)
     ck.floor("C06.10", 6)
 
     # ---- C06.11 the replies are accessed as received ---------------------------------------------------------------------------
@@ -347,7 +349,17 @@ def check(ck):
                    q.loc(frq, c_))
     for n in st611:
         alts = _prov611.value_alts(_prov611.origin(gmi, n, n.ast.value))
-        ck.require(alts == set([("param", "results")]), "C06.11", "%s: `%s`" % (q.fn(fmi), q.stmt_text(n)), "the replies as given",
+        # (the list as given; an empty list for no reply; a single reply object wrapped into a one-element list: nothing is
+        # filtered, matched or re-ordered by any of these)
+        def _as_given(a):
+            if a == ("param", "results"):
+                return True
+            if a[0] == "tuple" and (a[1] == () or a[1] == (("param", "results"),)):
+                return True
+            if a[0] == "other" and a[1] in ("[]", "[results]", "()"):
+                return True
+            return False
+        ck.require(("param", "results") in alts and all(_as_given(a) for a in alts), "C06.11", "%s: `%s`" % (q.fn(fmi), q.stmt_text(n)), "the replies as given",
                    "the iterator stores %s instead of the list of replies it is given: replies are filtered / matched / re-ordered before "
                    "they are checked for errors" % sorted(_prov611.show(a)[:40] for a in alts), q.loc(fmi, n))
 
